@@ -23,7 +23,7 @@ class Crash(Exception):
 # KeyError / AttributeError in look-ups, ...): a resolver raising one of them is still unexpected
 CRASH_CLASSES = [Crash] + [type("Crash" + b.__name__, (Crash, b), {})
                            for b in (IndexError, IndexError, IndexError, KeyError, KeyError, AttributeError, TypeError, ValueError, LookupError,
-                                     AssertionError, RuntimeError)]
+                                     AssertionError, RuntimeError, StopIteration)]
 
 
 DISTINCT_CRASH_CLASSES = []
